@@ -37,6 +37,9 @@
                                                                    a wait entered with cancellation disabled is not registered)
          k0  timeout.take ; d != 0 ? add_timer(d, wait_co) ; set_timeout_handle             (arming is not hooked)
          k1  wait_kernel.store(true)      k2  wait_co.store(co)
+         k2t (fixed code only, `fix`, and only if a time-out was armed) now() >= deadline ? k2k : k3       (not hooked)
+             deadline = (clock read before add_timer) + d, i.e. not later than the entry's own time
+         k2k wait_co.take ? {para := TimedOut; k2r} : k6          k2r run_coroutine(co)  (P runs nested)
          k3  state.load ? k4 : k5c
          k4  wait_co.take ? k4r : k6      k4r run_coroutine(co)  (P runs nested)             fast_wake_up
          k5c cancel.state.load == 1 ? kc3 : k6
@@ -57,7 +60,12 @@
   resuming a coroutine that is not suspended, storing into a full slot, a second kernel tail on the same Park, or a
   kernel-tail access to a dropped Park set the ghost flag `bad` - the theorems show it stays false.
 
-  Time is abstract: an armed timer may fire at any moment (never-early is C08). Cancellation is modelled as far as
+  Time is abstract, with ONE bit per kernel tail: `due` = the deadline of this tail's own time-out (clock before
+  `add_timer` + d; `dl` = it armed one) has passed; both are set anew at `k0`. The environment raises it at any moment (`Env.tick`, monotone within the call); the
+  own entry can be popped by the timer thread only when `due` (its time is not earlier than that deadline and a
+  handler never runs early: C08 `tol_never_early`); entries of earlier calls may fire at any moment.
+  `fix` selects the code variant: `false` = the pinned `subscribe` (defect F6), `true` = with the re-check of the time
+  after the publication (pending_fixes/F6.patch). `init` is the fixed code, `initPinned` the pinned one. Cancellation is modelled as far as
   this Park sees it (the cancel bit and the disable count of `cancel.state` = bit + 2 * count, `cancel.co`, the inner
   `take`); the bit is never cleared here. `is_canceled()` is `cancel.state == 1`.
 -/
@@ -76,7 +84,7 @@ inductive Para | none | timedOut | canceled
 
 /-- ghost: where the coroutine is -/
 inductive Loc
-  | run | ktail | ytail | slot | heldK | heldKc | heldT | heldC | heldV (t : Tid) | queued
+  | run | ktail | ytail | slot | heldK | heldKc | heldKt | heldT | heldC | heldV (t : Tid) | queued
   deriving DecidableEq, Repr
 
 inductive PPc
@@ -93,7 +101,7 @@ inductive PPc
   deriving DecidableEq, Repr
 
 inductive KPc
-  | kidle | k5d | k5 | k5x | k0 | k1 | k2 | k3 | k4 | k4r | k5c | kc3 | kc4 | k6
+  | kidle | k5d | k5 | k5x | k0 | k1 | k2 | k2t | k2k | k2r | k3 | k4 | k4r | k5c | kc3 | kc4 | k6
   deriving DecidableEq, Repr
 
 inductive VPc | vidle | v0 | v1 | v2
@@ -126,9 +134,11 @@ inductive Env
   | cancel                -- C calls cancel()
   | popOwn | popStale     -- T: an armed entry expires
   | rmOwn | rmStale       -- T: processes a removal request
+  | tick                  -- time passes: the deadline of the current call's own time-out is reached
   deriving DecidableEq, Repr
 
 structure St where
+  fix : Bool := true           -- code variant: the F6 re-check exists
   -- the Park
   state : Bool := false
   wco : Bool := false          -- `wait_co` holds the coroutine
@@ -146,6 +156,8 @@ structure St where
   ypend : Bool := false        -- a Yield tail is about to schedule it
   own : Tm := .none
   stale : Nat := 0             -- entries of earlier park calls still in the timer list (all with a removal request)
+  dl : Bool := false           -- this call armed a time-out (the tail holds a deadline)
+  due : Bool := false          -- ... and that deadline has passed
   -- pcs
   ppc : PPc := .idle
   kpc : KPc := .kidle
@@ -259,9 +271,13 @@ def stepK (s0 : St) : Option St :=
   | .k5d => some { s with kpc := if s.cdis = 0 then .k5 else .k5x }
   | .k5 => some { s with cco := true, kpc := .k0 }
   | .k5x => some { s with cco := false, kpc := .k0 }
-  | .k0 => some { s with tmo := 0, own := if s.tmo = 0 then s.own else .armed, kpc := .k1 }
+  | .k0 => some { s with tmo := 0, own := if s.tmo = 0 then s.own else .armed, dl := decide (s.tmo ≠ 0), due := false, kpc := .k1 }
   | .k1 => some { s with wk := true, kpc := .k2 }
-  | .k2 => some { s with wco := true, loc := .slot, bad := s.bad || s.wco, kpc := .k3 }
+  | .k2 => some { s with wco := true, loc := .slot, bad := s.bad || s.wco, kpc := if s.fix && s.dl then .k2t else .k3 }
+  | .k2t => some { s with kpc := if s.due then .k2k else .k3 }
+  | .k2k => if s.wco then some { s with wco := false, loc := .heldKt, wsrc := 3, para := .timedOut, paraOwn := true, kpc := .k2r }
+            else some { s with kpc := .k6 }
+  | .k2r => some { resume s with kpc := .k6 }
   | .k3 => some { s with kpc := if s.state then .k4 else .k5c }
   | .k4 => if s.wco then some { s with wco := false, loc := .heldK, wsrc := 2, kpc := .k4r } else some { s with kpc := .k6 }
   | .k4r => some { resume s with kpc := .k6 }
@@ -286,7 +302,8 @@ def stepV (s : St) (t : Tid) (e : Env) : Option St :=
 
 def stepT (s : St) (e : Env) : Option St :=
   match s.tpc, e with
-  | .tidle, .popOwn => if s.own = .armed ∨ s.own = .delreq then some { s with own := .gone, tpc := .t0 true } else none
+  | _, .tick => if s.dl ∧ ¬ s.due then some { s with due := true } else none
+  | .tidle, .popOwn => if (s.own = .armed ∨ s.own = .delreq) ∧ s.due then some { s with own := .gone, tpc := .t0 true } else none
   | .tidle, .popStale => if 0 < s.stale then some { s with stale := s.stale - 1, tpc := .t0 false } else none
   | .tidle, .rmOwn => if s.own = .delreq then some { s with own := .gone } else none
   | .tidle, .rmStale => if 0 < s.stale then some { s with stale := s.stale - 1 } else none
@@ -328,6 +345,8 @@ def step (s : St) (a : Actor) (e : Env) : Option St :=
   | .V t => stepV s t e
 
 def init : St := {}
+/-- the pinned code: no re-check of the time after the publication (defect F6) -/
+def initPinned : St := { fix := false }
 
 /-- every finite schedule: disabled choices are skipped, so `∀ sched` is every interleaving -/
 def run (s : St) : List (Actor × Env) → St
